@@ -2212,6 +2212,19 @@ class unyt_array(np.ndarray):
             out.units = res_units
         return ret
 
+    def std(self, axis=None, dtype=None, out=None, *args, **kwargs):
+        """method
+
+        Returns the standard deviation of the array elements along given axis.
+
+        Refer to :func:`numpy.std` for full documentation.
+        """
+        ret = super().std(axis, dtype, out, *args, **kwargs)
+        if isinstance(out, unyt_array):
+            # the variance computed in place left ``out`` labelled with units**2
+            out.units = ret.units
+        return ret
+
     def take(self, indices, axis=None, out=None, mode="raise"):
         """method
 
